@@ -1,12 +1,14 @@
 (** Model of pint's PromQL label-flow analyser, internal/parser/utils/source.go, as the code is NOW
-    (after fix c0db6fa): [walk_node] and every transfer function, [can_have_label], [can_join],
+    (after fixes c0db6fa, f3c0f95, 392e95a, 78dbe66): [walk_node] and every transfer function, [can_have_label], [can_join],
     [calculate_static_return], and the two consumers (alerts/template label check, promql/impossible).
 
     Not modelled (message-only data): ExcludeReason texts/fragments, Position/IsDeadPosition, IsDeadReason text
     (only the label name it mentions, [s_dead_label]), the Aggregation pointer.
-    Go slices are modelled as lists; the analyser's in-place [slices.Delete] can alias two copies of a
-    Source only when a scalar operand has several sources (e.g. [scalar(a or b)]); such expressions are
-    outside the generated fragment (notes/C04.md). *)
+    Go slices are modelled as lists.  Since fix 78dbe66 [removeFromSlice] deletes from a clone
+    ([slices.Delete(slices.Clone(sl), …)]) and every other writer appends through [appendToSlice]
+    (append to a slice of full capacity reallocates, append within capacity only writes past the
+    length of every earlier copy), so copies of a Source never observe each other's updates and the list
+    model is exact also for multi-branch scalar operands ([scalar(a or b)]), which the generator now emits. *)
 From Coq Require Import List String Bool Floats NArith.
 From PintV Require Import Common.Bytes Gen.C04 Model.PromQL.
 Import ListNotations.
@@ -240,7 +242,9 @@ Section Walk.
     else if String.eqb kind "scalar" then
       set_always (set_fixed (clear_labels (set_returns s VScalar)) true) true
     else if String.eqb kind "absent" then
-      let s := clear_labels (set_fixed (set_returns s VVector) true) in
+      (* fix f3c0f95: s.IsDead = false; s.IsDeadReason = ""; s.AlwaysReturns = false *)
+      let s := set_always (set_dead_label (set_dead (set_returns s VVector) false) None) false in
+      let s := clear_labels (set_fixed s true) in
       fold_left (fun s name => guarantee_label (include_label s [name]) [name])
                 (labels_from_selectors ["MatchEqual"] (s_selector s)) s
     else if String.eqb kind "timelike" then
@@ -393,7 +397,9 @@ Section Walk.
         let s := set_operation (parse_aggregation1 s without grouping) "count_values" in
         let s := include_label s [str_of_expr param] in
         let s := guarantee_label s [str_of_expr param] in
-        exclude_metric_name s without grouping
+        (* fix 392e95a: count_values("__name__", ...) by(...) stores the value in the metric name *)
+        if without || negb (String.eqb (str_of_expr param) metric_name)
+        then exclude_metric_name s without grouping else s
     | _ => exclude_metric_name (set_operation (parse_aggregation1 s without grouping) (agg_operation op)) without grouping
     end.
 
